@@ -143,6 +143,9 @@ class Kernel:
         self.step_cap = cfg.get('step_cap', 400000)
         self.fault_fired = collections.Counter()
         self.probes = collections.Counter()
+        # file timestamps are a clock too: (st_dev, st_ino) -> (simulated wall-clock time of the last modification, the real
+        # st_mtime_ns seen when that was recorded - a different real stamp later means "modified outside the seams")
+        self.mtimes = {}
         self.foreign_live_pids = set()
         self.pools = []
         self.path_tokens = {}
@@ -451,6 +454,48 @@ class Kernel:
     def wall(self):
         return self.EPOCH + self.now + self.clock_offset
 
+    # ---- file timestamps ---------------------------------------------------------------
+    def touch_fd(self, fd, t=None):
+        """the file behind fd was just modified through a seam"""
+        try:
+            st = _real['os.fstat'](fd)
+        except OSError:
+            return
+        self.mtimes[(st.st_dev, st.st_ino)] = (self.wall() if t is None else t, st.st_mtime_ns)
+
+    def touch_path(self, path, t=None):
+        """the harness (or an unmodelled path) modified `path`; t: the modification time it should carry"""
+        try:
+            st = _real['os.stat'](path)
+        except OSError:
+            return
+        self.mtimes[(st.st_dev, st.st_ino)] = (self.wall() if t is None else t, st.st_mtime_ns)
+
+    def file_time(self, st, path):
+        key = (st.st_dev, st.st_ino)
+        e = self.mtimes.get(key)
+        if e is None or e[1] != st.st_mtime_ns:
+            # never seen, or changed behind the seams: inside the sandbox it is taken as modified at the moment it is first
+            # looked at; anything else (the repository, installed packages) is a day older than the start of the run
+            inside = isinstance(path, int)
+            if not inside and path is not None:
+                try:
+                    inside = os.path.abspath(os.fsdecode(os.fspath(path))).startswith(self.sandbox)
+                except (TypeError, ValueError):
+                    inside = False
+            e = (self.wall() if inside else self.EPOCH + self.clock_offset - 86400.0, st.st_mtime_ns)
+            self.mtimes[key] = e
+        return e[0]
+
+    def sim_stat(self, st, path):
+        t = self.file_time(st, path)
+        red = st.__reduce__()[1]
+        tup, extra = list(red[0]), dict(red[1])
+        tup[7] = tup[8] = tup[9] = int(t)
+        ns = int(round(t * 1e9))
+        extra.update(st_atime=t, st_mtime=t, st_ctime=t, st_atime_ns=ns, st_mtime_ns=ns, st_ctime_ns=ns)
+        return os.stat_result(tup, extra)
+
     # ---- entropy --------------------------------------------------------------------
     def entropy(self, p, n):
         out = b''
@@ -623,6 +668,7 @@ class SimFile:
                 return
             chunk, data = data[:n], data[n:]
             _real['os.write'](self._fd, chunk)
+            k.touch_fd(self._fd)
             if owner is not None:
                 k.note('write', path=k.norm_path(self.name), data=chunk, task=owner.task)
 
@@ -718,6 +764,7 @@ class SimRWFile:
         n = self._f.write(s)
         if hasattr(self._f, 'flush'):
             self._f.flush()
+        self._k.touch_fd(self._f.fileno())
         owner = cur()
         if owner is not None:
             data = s if isinstance(s, (bytes, bytearray)) else str(s).encode('utf-8', 'replace')
@@ -730,7 +777,9 @@ class SimRWFile:
 
     def truncate(self, *a):
         self._op('truncate')
-        return self._f.truncate(*a)
+        r = self._f.truncate(*a)
+        self._k.touch_fd(self._f.fileno())
+        return r
 
     def flush(self):
         self._op('flush')
@@ -807,6 +856,8 @@ def _sim_open(file, mode='r', buffering=-1, encoding=None, errors=None, newline=
             raw = _real['open'](file, mode, 0)
         else:
             raw = _real['open'](file, mode, buffering, encoding, errors, newline, closefd, opener)
+        if 'w' in mode or 'x' in mode:
+            k.touch_fd(raw.fileno())
         f = SimRWFile(k, p, path, mode, raw)
         p.image.files.append(f)
         return f
@@ -817,6 +868,8 @@ def _sim_open(file, mode='r', buffering=-1, encoding=None, errors=None, newline=
     else:
         flags |= os.O_TRUNC
     fd = _real['os.open'](path, flags, 0o666)
+    if 'a' not in mode:
+        k.touch_fd(fd)      # created or truncated now
     f = SimFile(k, p, path, mode, fd, encoding, 'b' in mode)
     p.image.files.append(f)
     return f
@@ -1446,6 +1499,34 @@ def _wrap_fs(name, kind, path_args=1):
     return shim
 
 
+def _wrap_stat(name, kind):
+    """stat family: a seam (when kind is given), and the time stamps of the result come from the simulated clock"""
+    real = _real[name]
+
+    def shim(*a, **kw):
+        p = cur()
+        if p is None or not a:
+            return real(*a, **kw)
+        inc = not isinstance(a[0], int) and _incidental(a[0])
+        k = p.kernel
+        if kind and not p.atomic and not inc:
+            try:
+                detail = k.norm_path(a[0])
+            except TypeError:
+                detail = '?'
+            k.seam(kind, detail)
+        st = real(*a, **kw)
+        if inc:
+            return st
+        try:
+            return k.sim_stat(st, a[0])
+        except Exception:  # noqa: BLE001
+            return st
+    shim.__name__ = real.__name__
+    shim.__wrapped__ = real
+    return shim
+
+
 def _pool_factory(simcls, realcls):
     class Dispatch(realcls):
         def __new__(cls, *a, **kw):
@@ -1466,7 +1547,8 @@ def install():
     _real.update({
         'open': builtins.open, 'os.open': os.open, 'os.write': os.write, 'os.close': os.close,
         'os.rename': os.rename, 'os.replace': os.replace, 'os.unlink': os.unlink, 'os.remove': os.remove,
-        'os.stat': os.stat, 'os.fsync': os.fsync, 'os.chdir': os.chdir, 'os.getcwd': os.getcwd,
+        'os.stat': os.stat, 'os.lstat': os.lstat, 'os.fstat': os.fstat, 'os.utime': os.utime,
+        'os.listdir': os.listdir, 'os.scandir': os.scandir, 'os.fsync': os.fsync, 'os.chdir': os.chdir, 'os.getcwd': os.getcwd,
         'os.getpid': os.getpid, 'os.urandom': os.urandom, 'os.cpu_count': os.cpu_count,
         'os.fork': os.fork, 'os.kill': os.kill, 'os._exit': os._exit,
         'time.time': _time.time, 'time.sleep': _time.sleep, 'time.monotonic': _time.monotonic,
@@ -1484,7 +1566,28 @@ def install():
     os.replace = _wrap_fs('os.replace', 'rename', 2)
     os.unlink = _wrap_fs('os.unlink', 'unlink')
     os.remove = _wrap_fs('os.remove', 'unlink')
-    os.stat = _wrap_fs('os.stat', 'stat')
+    os.stat = _wrap_stat('os.stat', 'stat')
+    os.lstat = _wrap_stat('os.lstat', 'stat')
+    os.fstat = _wrap_stat('os.fstat', None)
+    os.listdir = _wrap_fs('os.listdir', 'listdir')
+    os.scandir = _wrap_fs('os.scandir', 'listdir')
+
+    def utime(path, times=None, *, ns=None, **kw):
+        p = cur()
+        if p is None:
+            return _real['os.utime'](path, times, **kw) if ns is None else _real['os.utime'](path, ns=ns, **kw)
+        k = p.kernel
+        if not p.atomic:
+            k.seam('utime', k.norm_path(path) if not isinstance(path, int) else '')
+        r = _real['os.utime'](path, times, **kw) if ns is None else _real['os.utime'](path, ns=ns, **kw)
+        # (the times a process passes are in the domain it reads with stat: the simulated one)
+        t = times[1] if times is not None else (ns[1] / 1e9 if ns is not None else None)
+        if isinstance(path, int):
+            k.touch_fd(path, t)
+        else:
+            k.touch_path(path, t)
+        return r
+    os.utime = utime
     shutil.copyfile = _wrap_fs('shutil.copyfile', 'copyfile', 2)
     shutil.copy = _wrap_fs('shutil.copy', 'copyfile', 2)
     shutil.move = _wrap_fs('shutil.move', 'rename', 2)
